@@ -652,6 +652,7 @@ func (fc *FnCtx) execNext(st *State, x *ssa.Next) {
 		fc.q.assert(implies(st.reach, eq(vc, v)))
 		fc.typeInv(st, vc, mt.Elem())
 		fc.vals[x] = Val{Tup: []Val{{T: ok}, k, {T: vc}}}
+		fc.mapCopySummary(st, x, mt, m, ok)
 		return
 	}
 	fc.abstract("range over " + rng.X.Type().String())
@@ -772,4 +773,122 @@ func (fc *FnCtx) execConvert(st *State, x *ssa.Convert) {
 		fc.abstract(fmt.Sprintf("convert %s -> %s", from, to))
 		fc.vals[x] = fc.freshVal(st, to, "conv")
 	}
+}
+
+// mapCopySummary: the loop `for k, v := range src { dst[k] = v }` (nothing else in its body) copies src into dst. The
+// range semantics ("every key is visited once") cannot be expressed by a loop invariant over the havocked state, so this
+// one idiom is summarised: at the loop head dst holds its entries from before the loop plus copies of entries of src;
+// when the iteration ends every entry of src is in dst with src's value and every other key is as before the loop.
+// (Assumed, listed under the trusted rules; it only fires on the exact syntactic shape checked by mapCopyIdiom.)
+func (fc *FnCtx) mapCopySummary(st *State, n *ssa.Next, mt *types.Map, src string, ok string) {
+	li := fc.loopOf[n.Block()]
+	if li == nil || li.header != n.Block() || li.entrySt == nil {
+		return
+	}
+	mu := fc.mapCopyIdiom(li, n)
+	if mu == nil {
+		return
+	}
+	ks := fc.g.ti.sortOf(mt.Key())
+	if ks == "" {
+		return
+	}
+	var dst string
+	if ld, isLoad := mu.Map.(*ssa.UnOp); isLoad {
+		// the map variable is read inside the body; it is not assigned there (mapCopyIdiom), so its value at the head is the one used
+		a := ld.X.(*ssa.Alloc)
+		dst = fc.loadAt(st, fc.val(st, a), a.Type().Underlying().(*types.Pointer).Elem()).T
+	} else if _, seen := fc.vals[mu.Map]; seen {
+		dst = fc.val(st, mu.Map).T
+	}
+	if dst == "" {
+		return
+	}
+	fc.useTrusted("the loop `for k, v := range src { dst[k] = v }` copies every entry of src into dst and changes nothing else")
+	hasA, valA, _ := fc.mapArrays(mt)
+	pre := li.entrySt
+	hc, vc := sel(st.get(hasA), dst), sel(st.get(valA), dst)
+	hp, vp := sel(pre.get(hasA), dst), sel(pre.get(valA), dst)
+	hs, vs := sel(st.get(hasA), src), sel(st.get(valA), src)
+	h := func(a string) string {
+		if a == hs {
+			// a nil source map has no entries
+			return "(and (not (= " + src + " nilref)) (select " + a + " ck))"
+		}
+		return "(select " + a + " ck)"
+	}
+	partial := fmt.Sprintf("(forall ((ck %s)) (! (=> %s (or (and %s (= %s %s)) (and %s (= %s %s)))) :pattern (%s) :pattern (%s)))",
+		ks, h(hc), h(hs), h(vc), h(vs), h(hp), h(vc), h(vp), h(hc), h(vc))
+	complete := fmt.Sprintf("(forall ((ck %s)) (! (and (=> %s (and %s (= %s %s))) (=> (not %s) (and (= %s %s) (= %s %s)))) :pattern (%s) :pattern (%s)))",
+		ks, h(hs), h(hc), h(vc), h(vs), h(hs), h(hc), h(hp), h(vc), h(vp), h(hc), h(vc))
+	notSame := not(eq(dst, src))
+	fc.q.assert(implies(and(st.reach, notSame, not(eq(dst, "nilref"))), partial))
+	fc.q.assert(implies(and(st.reach, notSame, not(eq(dst, "nilref")), not(ok)), complete))
+}
+
+// mapCopyIdiom: the body of loop li (a range over a map driven by n) is exactly one `dst[k] = v` with k, v the range
+// variables and dst a map that the loop does not reassign. Returns that MapUpdate, or nil.
+func (fc *FnCtx) mapCopyIdiom(li *loopInfo, n *ssa.Next) *ssa.MapUpdate {
+	var mu *ssa.MapUpdate
+	stores := map[*ssa.Alloc][]ssa.Value{}
+	for b := range li.blocks {
+		for _, in := range b.Instrs {
+			switch x := in.(type) {
+			case *ssa.Next:
+				if x != n {
+					return nil
+				}
+			case *ssa.Extract:
+				if x.Tuple != ssa.Value(n) {
+					return nil
+				}
+			case *ssa.If, *ssa.Jump, *ssa.DebugRef, *ssa.Alloc:
+			case *ssa.UnOp:
+				if x.Op != token.MUL {
+					return nil
+				}
+				if _, isAlloc := x.X.(*ssa.Alloc); !isAlloc {
+					return nil
+				}
+			case *ssa.Store:
+				a, isAlloc := x.Addr.(*ssa.Alloc)
+				if !isAlloc {
+					return nil
+				}
+				stores[a] = append(stores[a], x.Val)
+			case *ssa.MapUpdate:
+				if mu != nil {
+					return nil
+				}
+				mu = x
+			default:
+				return nil
+			}
+		}
+	}
+	if mu == nil {
+		return nil
+	}
+	fromNext := func(v ssa.Value, idx int) bool {
+		ld, ok := v.(*ssa.UnOp)
+		if !ok {
+			return false
+		}
+		a, ok := ld.X.(*ssa.Alloc)
+		if !ok || len(stores[a]) != 1 {
+			return false
+		}
+		ex, ok := stores[a][0].(*ssa.Extract)
+		return ok && ex.Tuple == ssa.Value(n) && ex.Index == idx
+	}
+	if !fromNext(mu.Key, 1) || !fromNext(mu.Value, 2) {
+		return nil
+	}
+	// the destination map variable is not assigned inside the loop
+	if ld, ok := mu.Map.(*ssa.UnOp); ok {
+		if a, isAlloc := ld.X.(*ssa.Alloc); isAlloc && len(stores[a]) > 0 {
+			return nil
+		}
+	}
+	return mu
 }
